@@ -11,11 +11,11 @@ COMMON_NOTE = ("Assumes A1 real arithmetic for floats, A2 point-wise numpy, A3 i
 CHECKS = {
  "C01": {"text": "Deductive: for every closed-form hydrodynamic solver under contract (Noh, Noh2, Noh2Cog, the 20 Coggeshall solutions; each geometry by exhaustive case split) the mass, momentum and energy "
                  "residuals (with the documented heat-flux term) of the field terms extracted from the real _run are proved identically zero for all symbolic parameters, points and times on every path. "
-                 "Proof level because the property is an algebraic identity per path; the numerically assembled solvers (Sedov interior, Guderley, Riemann fans, EHEP) are being added.",
-         "note": COMMON_NOTE + "Not yet covered in this check: EHEP regions, Riemann fans, Sedov, Guderley (their SciPy-driven assembly is outside the executor).",
+                 "Also the rarefaction fans of the ideal-gas Riemann solver (three patterns with fans, symbolic states, bisect root eliminated). Proof level because the property is an algebraic identity per path.",
+         "note": COMMON_NOTE + "Not yet covered in this check: EHEP regions, general-EOS Riemann fans, Sedov, Guderley.",
          "technique": "symbolic execution of real source + PDE residual VCs discharged by ring normaliser / z3"},
  "C03": {"text": "Deductive: the declared EOS relations between the *returned* fields (resolved through the names list of the real ExactSolution call) are proved on every path, every geometry, symbolic parameters.",
-         "note": COMMON_NOTE + "Covered so far: Noh, Noh2, Noh2Cog, Coggeshall 1-21; other solver families are being added.",
+         "note": COMMON_NOTE + "Covered: Noh, Noh2, Noh2Cog, Coggeshall 1-21, ideal-gas Riemann solver (every region of every pattern, per-side gamma); other solver families are being added.",
          "technique": "symbolic execution of real source + EOS-relation VCs discharged by ring normaliser"},
  "C16": {"text": "Deductive: for each EOS class of the library (symbolic constants, symbolic state, every feasible branch pair) the closures are proved mutually inverse and every analytic partial equal to the symbolic derivative of its closure, "
                  "with methods bound positionally in the base-class order; for each of the four residual classes and each symmetry every Jacobian entry equals the derivative of the residual for an abstract EOS (contract only), "
@@ -32,5 +32,17 @@ CHECKS = {
                  "the six moduli satisfy the isotropic identities, reproduce the supplied pair, are positive definite, (E,M) returns the + branch; all other paths raise ValueError.",
          "note": COMMON_NOTE + "np.isclose guards are modelled over the reals; Blake.__init__'s own argument plumbing is covered by C05/C20, not here.",
          "technique": "symbolic execution of real source + PDE/Hooke/identity VCs discharged by ring normaliser (exp/sin/cos atoms) and z3"},
+ "C02": {"text": "Deductive: Rankine-Hugoniot triples between the states the real code returns on the two sides of each discontinuity with W = d(location)/dt from the solver's own location expression: "
+                 "ideal-gas Riemann solver (all four wave patterns, unequal gammas, symbolic states; bisect root eliminated through the root equation, which is proved equal to the documented u*_R - u*_L), "
+                 "Noh, Coggeshall 19/20/21 (each geometry), elastic-plastic piston (three models, elastic and plastic wave, total stress).",
+         "note": COMMON_NOTE + "Assumed (A5): bisect/fsolve return roots of the given residuals. Not yet under contract in this check: general-EOS Riemann (JWL), Sedov, SDRZ, EHEP, Mader, black-box Noh, Guderley, RMTV discontinuities.",
+         "technique": "symbolic execution of real source + jump-condition VCs discharged by ring normaliser modulo radicals"},
+ "C04": {"text": "Deductive for the ideal-gas solver: the integral conservation law is reduced (telescoping sum over the code's own region table) to per-wave obligations, all proved for symbolic left/right states and gammas on each of the four patterns: "
+                 "fan interior Euler residuals + self-similarity, shock triples with the coded speeds, contact conditions and root equation == u*_R - u*_L, fan head/tail continuity, non-decreasing wave speeds, outer regions = initial states.",
+         "note": COMMON_NOTE + "Assumed: bisect root (A5), fundamental theorem of calculus for the fan integrals (A6). The general-EOS solver (P-U tables, ODE integration, interpolation) is outside the executor and is NOT covered: for it the property is undecided by this check.",
+         "technique": "symbolic execution of real source + telescoped conservation VCs (ring normaliser, z3 for wave ordering)"},
+ "C10": {"text": "Deductive: Riemann (IGEOS, four patterns), Noh and Coggeshall 19: each returned field on each path is constant along rays x - x0 = xi t, wave positions are xd0 + t V with time-free V and root equation, shock location proportional to t.",
+         "note": COMMON_NOTE + "Not yet under contract: Sedov exponents, Guderley power-law prefactors, Mader cell averages with dx proportional to t, EHEP region I.",
+         "technique": "symbolic execution of real source + similarity-invariance VCs discharged by ring normaliser"},
 }
 NOT_APPLICABLE = {}
